@@ -52,6 +52,7 @@ func checkC15(c *Ctx) {
 	c.Rule("C15.R5", "policy wiring: each per-route publish hook of the admin server returns exactly the CompiledRoute flag of its name, and each scalar publish-policy field is copied from the compiled policy field of its name")
 	c.Rule("C15.R6", "resolves to an allowed target: the value a publish target resolver reports as resolved is an element of the allowed list, or the caller's value on a path that compared it == to an element")
 	c.Rule("C15.R7", "the item index of a publish error is an index into the request's item list: every value reaching the error writer's item-index argument is a loop index over the whole list (directly, via an id→index map or a helper), a constant, or a sub-slice index with the lower bound added back")
+	c.Rule("C15.R8", "the per-route hooks of the admin server (targets, publish switches, managed info, limits) select the compiled route by the same predicate — sibling agreement, so a name that exists for one exists for all")
 	hs := publishHandlers(p)
 	c.Floor("C15.R1", "publish_handlers", len(hs), 2)
 	var builder *ssa.Function
@@ -263,6 +264,7 @@ func checkC15(c *Ctx) {
 	checkPublishPolicyWiring(c, "C15.R5")
 	checkResolvedTargetAllowed(c, "C15.R6")
 	checkItemIndexFrames(c, "C15.R7")
+	checkRouteHookAgreement(c, "C15.R8")
 }
 
 // iterMustPassGeneric: within one iteration of the loop with header h, site is reachable only through `through`.
